@@ -111,12 +111,22 @@ fn check(s: &Sharing, case: &mut Case) -> Result<(), Fail> {
         let mut cur = std::io::Cursor::new((0..stale).map(|j| 0x30u8 ^ (j as u8)).collect::<Vec<u8>>());
         cur.set_position(k as u64);
         lib("write_compressed_to", || pk.write_compressed_to(&mut cur))?.map_err(|e| Fail::new("c03:compressed-failed", format!("write_compressed_to into a reused buffer at offset {}: {:?}", k, e)))?;
+        let pos = cur.position() as usize;
         let v = cur.into_inner();
-        // the message occupies as many octets as the vector-returning entry point produced (that the two agree
-        // octet for octet is C04's statement; here only what the octets mean is compared)
-        ensure!(v.len() >= k + c.len(), "c03:compressed-unparseable@reused", "the reused buffer holds {} octets, the message alone has {}", v.len(), c.len());
-        let ow = reparse(&v[k..k + c.len()], "c03:compressed-unparseable@reused", "compressed output written into a reused buffer")?;
-        ensure!(ow == ou, "c03:compressed-mismatch@reused", "compressed output written into a reused buffer (offset {}, {} stale octets) parses differently from the plain output: {}", k, stale, diff(&ou, &ow));
+        // Where the message ends: as many octets as the vector-returning entry point produced, or where the cursor
+        // was left (that the two entry points agree octet for octet is C04's statement, and the final position is
+        // nobody's; here only what the octets mean is compared, and either reading that shows the packet is accepted)
+        let ends: Vec<usize> = [k + c.len(), pos].into_iter().filter(|e| *e > k && *e <= v.len()).collect();
+        ensure!(!ends.is_empty(), "c03:compressed-unparseable@reused", "the reused buffer holds {} octets, the cursor stands at {}, the message alone has {}", v.len(), pos, c.len());
+        let mut verdicts = ends.iter().map(|e| {
+            let ow = reparse(&v[k..*e], "c03:compressed-unparseable@reused", "compressed output written into a reused buffer")?;
+            ensure!(ow == ou, "c03:compressed-mismatch@reused", "compressed output written into a reused buffer (offset {}, {} stale octets) parses differently from the plain output: {}", k, stale, diff(&ou, &ow));
+            Ok(())
+        });
+        let first = verdicts.next().unwrap();
+        if first.is_err() && !verdicts.any(|r: Result<(), Fail>| r.is_ok()) {
+            return first;
+        }
     }
     // and on a writer that accepts only a few bytes per call (any std::io::Write may do that)
     if s.filler_at % 4 == 2 && u.len() < 8192 {
